@@ -1,6 +1,10 @@
 package main
 
-import "strings"
+import (
+	"fmt"
+	"go/ast"
+	"strings"
+)
 
 func genConsts() {
 	var b strings.Builder
@@ -8,8 +12,85 @@ func genConsts() {
 	emit("Consts.lean", b.String())
 }
 
+// enclosingFunc names for call sites
+func funcName(fd *ast.FuncDecl) string {
+	if fd.Recv != nil && len(fd.Recv.List) > 0 {
+		t := fd.Recv.List[0].Type
+		if st, ok := t.(*ast.StarExpr); ok {
+			t = st.X
+		}
+		if id, ok := t.(*ast.Ident); ok {
+			return id.Name + "." + fd.Name.Name
+		}
+	}
+	return fd.Name.Name
+}
+
 func genFacts() {
 	var b strings.Builder
-	b.WriteString("namespace Miller.Gen\n\nend Miller.Gen\n")
+	b.WriteString("namespace Miller.Gen\n\n")
+	// --- C08: every call of an lvalue's Assign(...) in pkg/dsl/cst and whether it sits inside an
+	// `if` whose condition tests IsAbsent() of the value being assigned.
+	cst := loadPkg("pkg/dsl/cst")
+	type site struct {
+		where   string
+		guarded bool
+	}
+	var sites []site
+	for _, fn := range cst.names {
+		f := cst.files[fn]
+		for _, d := range f.Decls {
+			fd, ok := d.(*ast.FuncDecl)
+			if !ok || fd.Body == nil {
+				continue
+			}
+			var walk func(n ast.Node, guarded bool)
+			walk = func(n ast.Node, guarded bool) {
+				if n == nil {
+					return
+				}
+				switch x := n.(type) {
+				case *ast.IfStmt:
+					cond := exprString(cst.fset, x.Cond)
+					g := guarded || strings.Contains(cond, "!") && strings.Contains(cond, "IsAbsent()")
+					if x.Init != nil {
+						walk(x.Init, guarded)
+					}
+					walk(x.Body, g)
+					if x.Else != nil {
+						walk(x.Else, guarded)
+					}
+					return
+				case *ast.CallExpr:
+					if sel, ok := x.Fun.(*ast.SelectorExpr); ok && (sel.Sel.Name == "Assign" || sel.Sel.Name == "AssignIndexed") {
+						recv := exprString(cst.fset, sel.X)
+						// calls from one lvalue node to another inside lvalues.go are delegation, not entry points
+						if fn != "lvalues.go" {
+							sites = append(sites, site{fmt.Sprintf("%s:%s:%s.%s", fn, funcName(fd), recv, sel.Sel.Name), guarded})
+						}
+					}
+				}
+				ast.Inspect(n, func(c ast.Node) bool {
+					if c == n {
+						return true
+					}
+					if c != nil {
+						walk(c, guarded)
+					}
+					return false
+				})
+			}
+			walk(fd.Body, false)
+		}
+	}
+	b.WriteString("/-- C08: call sites of `<lvalue>.Assign…(…)` outside lvalues.go, and whether each is guarded by\n`if !rvalue.IsAbsent()`. -/\ndef assignCallSites : List (String × Bool) := [")
+	for i, s := range sites {
+		if i > 0 {
+			b.WriteString(", ")
+		}
+		fmt.Fprintf(&b, "(%s, %v)", leanString(s.where), s.guarded)
+	}
+	b.WriteString("]\n\n")
+	b.WriteString("end Miller.Gen\n")
 	emit("Facts.lean", b.String())
 }
